@@ -27,6 +27,19 @@ def _site_ordinal(ip, callee):
     return n
 
 
+def all_clauses(ip, c, which, params, extra=None):
+    """clauses of `requires` / `ensures` of c and of the contracts it extends: [(label, cond)]"""
+    out = []
+    seen = set()
+    while c is not None and c.key not in seen:
+        seen.add(c.key)
+        pre = '' if not out and len(seen) == 1 else c.name + ':'
+        out.extend((pre + l if not l.startswith('!') else '!' + pre + l[1:], cd)
+                   for l, cd in ip.clauses(call_contract_fn(ip, c, which, params, extra)))
+        c = ip.reg.get(c.extends) if c.extends else None
+    return out
+
+
 def call_contract_fn(ip, c, which, params, extra=None):
     """call requires / ensures / spec of contract c with the given parameter values"""
     f = ip.reg.contract_fn(c, which)
@@ -47,16 +60,19 @@ def call_contract_fn(ip, c, which, params, extra=None):
 def apply_contract(ip, f: AstFunc, args, kwargs):
     c = ip.reg.get(f.key)
     params = ip.bind_args(f, args, kwargs)
+    return apply_to_params(ip, c, params)
+
+
+def apply_to_params(ip, c, params):
     caller = _caller(ip)
-    short = f.key.split('.', 1)[1]
+    short = c.key.split('.', 1)[1]
     k = _site_ordinal(ip, short)
     site = f'{caller}/pre[{short}#{k}]'
     ctx = ip.ctx
     used = ctx.ghost.setdefault('contracts_used', set())
-    used.add(f.key)
+    used.add(c.key)
     # 1. preconditions are obligations of the caller
-    pre = call_contract_fn(ip, c, 'requires', params)
-    for label, cond in ip.clauses(pre):
+    for label, cond in all_clauses(ip, c, 'requires', params):
         ctx.oblige(f'{site}/{label}', cond, 'pre')
         ctx.assume(cond)
     old = Old(snapshot(dict(params)))
@@ -72,40 +88,73 @@ def apply_contract(ip, f: AstFunc, args, kwargs):
             raised = r
     else:
         # havoc what the contract says may change, then pick an outcome
-        for path in (c.modifies or ()):
-            _havoc_path(ip, params, path)
+        mods = c.modifies
+        par = c
+        while mods is None and par is not None and par.extends:
+            par = ip.reg.get(par.extends)
+            mods = par.modifies if par is not None else None
+        tag = f'{short}#{ctx.count("apply:" + c.key)}'
+        for path in (mods or ()):
+            _havoc_path(ip, params, path, tag)
         n_out = 1 + len(c.raises)
         if n_out > 1:
             ch = ctx.choose([True] * n_out, f'outcome[{short}]')
             if ch > 0:
                 cls = c.raises[ch - 1]
                 raised = PyRaise(cls, PyExcVal(cls, ()))
-        if raised is None and c.returns is not None:
+        if raised is None and c.pure is not None:
+            result = pure_result(ip, c, params)
+        elif raised is None and c.returns is not None:
             from .state import Mk
             result = Mk(ip).of(c.returns, f'ret_{short}{k}')
     # 3. assume the postconditions
-    post = call_contract_fn(ip, c, 'ensures', params,
-                            {'old': old, 'result': result, 'raised': raised.cls if raised else None})
-    for label, cond in ip.clauses(post):
-        ctx.assume(cond)
+    post = all_clauses(ip, c, 'ensures', params,
+                       {'old': old, 'result': result, 'raised': raised.cls if raised else None})
+    for label, cond in post:
+        if not label.startswith('!'):      # '!' clauses are obligations of the callee only, never assumed
+            ctx.assume(cond)
     if raised is not None:
         raise raised
     return result
 
 
-def _havoc_path(ip, params, path):
+def _havoc_path(ip, params, path, tag):
+    """havoc with names determined by (callee, call ordinal on this path, location): the unknown
+    effect of the callee is a function of where it is called, so that the body run and the spec run
+    of a refinement check see the same unknown"""
     parts = path.split('.')
     o = params[parts[0]]
+    nm = f'{tag}.{path}'
     if len(parts) == 1:
-        havoc_inplace(ip, o, parts[0])
+        havoc_inplace(ip, o, nm, det=True)
         return
     for p in parts[1:-1]:
         o = o.f[p]
     cur = o.f[parts[-1]]
     if isinstance(cur, (sym.ZList, sym.HDict, sym.HObj)):
-        havoc_inplace(ip, cur, path)
+        havoc_inplace(ip, cur, nm, det=True)
     else:
-        r = fresh_like(ip, cur, path)
+        r = fresh_like(ip, cur, nm, det=True)
         if r is None:
             raise Unsupported(f'havoc of {path}')
         o.f[parts[-1]] = r
+
+
+def pure_result(ip, c, params):
+    """result of a pure function as an application of an uninterpreted function to its arguments"""
+    name, rsort = c.pure
+    args = []
+    for v in params.values():
+        v = ip.resolve(v)
+        if isinstance(v, bool) or sym.is_sym_bool(v):
+            args.append(zbool(v))
+        elif isinstance(v, int) or sym.is_sym_int(v):
+            args.append(zint(v))
+        elif sym.is_bytes(v):
+            args.append(sym.bexpr(v))
+        else:
+            raise Unsupported(f'pure contract {c.key}: argument of type {type(v).__name__}')
+    rs = {'bytes': sym.BYTES, 'int': I, 'bool': z3.BoolSort()}[rsort]
+    f = z3.Function(name, *[a.sort() for a in args], rs)
+    r = f(*args)
+    return sym.sym_bytes(r) if rsort == 'bytes' else r
